@@ -9,7 +9,7 @@ trap 'rm -rf "$d"' EXIT
 cp -r /repo/src "$d/src"; mkdir -p "$d/verif"; cp /verif/known_findings.json "$d/verif/" 2>/dev/null
 if ! patch -s -p1 -d "$d" < "$patch"; then echo "REF: patch does not apply"; exit 3; fi
 export GOFLAGS=-mod=mod GOPROXY=off GOSUMDB=off GOTOOLCHAIN=local
-out=$(RS_NO_SELFTEST=1 RS_REPO=$d RS_VERIF=$d/verif ${RS_BIN:-/verif/bin/rscheck} -prop all 2>&1 | sed "s#$d/##g")
+out=$(RS_NO_SELFTEST=1 RS_REPO=$d RS_VERIF=$d/verif ${RS_BIN:-/verif/bin/rscheck} -prop all 2>&1 | sed "s#$d/##g"); if [ -n "${RS_KEEP_RAW:-}" ]; then echo "$out" > $RS_KEEP_RAW/$(basename $(dirname $patch)).raw; fi
 echo "$out" | grep "^UNDECIDED load" | head -3
 echo "$out" | grep -A1 "^VIOLATION" | grep -v "^--" | paste - - | sed -E 's/replay=[^ ]+ //' | cut -c1-260 | sed 's/^/  FALSE-ALARM /'
 echo "$out" | grep "^UNDECIDED property" | cut -c1-230 | sed 's/^/  /'
